@@ -25,3 +25,14 @@ func VerifC35ConnectConn(m *Manager, namespace string, c net.Conn) bool {
 	cc.c = NewClientConn(mysql.NewConn(c), m)
 	return cc.IsAllowConnect()
 }
+
+// IsAllowConnectConn runs Session.IsAllowConnect for a session of this
+// namespace over the real connection `c`.
+func (l *VerifAllowList) IsAllowConnectConn(c net.Conn) bool {
+	m := NewManager()
+	nm := NewNamespaceManager()
+	nm.namespaces[l.ns.name] = l.ns
+	current, _, _ := m.switchIndex.Get()
+	m.namespaces[current] = nm
+	return VerifC35ConnectConn(m, l.ns.name, c)
+}
